@@ -320,6 +320,9 @@ func (m *memFS) Mknod(path string, mode uint32, dev int) error {
 	if err != nil {
 		return err
 	}
+	if !anode.dir {
+		return fmt.Errorf("parent is not a directory")
+	}
 	anode.mu.Lock()
 	defer anode.mu.Unlock()
 	if _, ok := anode.children[base]; ok {
@@ -396,6 +399,9 @@ func (m *memFS) Symlink(oldname, newname string) error {
 	if err != nil {
 		return err
 	}
+	if !anode.dir {
+		return fmt.Errorf("parent is not a directory")
+	}
 	anode.mu.Lock()
 	defer anode.mu.Unlock()
 	if _, ok := anode.children[base]; ok {
@@ -417,6 +423,9 @@ func (m *memFS) Link(oldname, newname string) error {
 	anode, err := m.getNode(parent)
 	if err != nil {
 		return err
+	}
+	if !anode.dir {
+		return fmt.Errorf("parent is not a directory")
 	}
 	target, err := m.getNode(oldname)
 	if err != nil {
